@@ -173,6 +173,54 @@ def pushTimes : List COp → List Int
   | .push _ a :: ops => a :: pushTimes ops
   | .trunc _ :: ops => pushTimes ops
 
+/-! ## the Dandelion relay peer
+
+`DandelionEpoch::relay_peer` (servers/src/common/types.rs) and what `PoolToNetAdapter::
+stem_tx_accepted` does with it.  What the code sees of a `p2p::Peer`: -/
+
+/-- a peer object.  `banned`: `State::Banned` - the ONLY way `Peer::is_connected()` becomes false
+(p2p/src/peer.rs: the state is `Connected` from construction and is never changed when the TCP
+connection ends).  `alive`: the connection's writer still runs, i.e. `ConnHandle::send`'s `try_send`
+does not answer `Disconnected` (a full channel answers `Ok`).  `member`: still in the `Peers` map. -/
+structure RPeer where
+  id : Nat
+  banned : Bool := false
+  alive : Bool := true
+  outbound : Bool := true
+  member : Bool := true
+deriving Repr, DecidableEq, Inhabited
+
+/-- `peers.iter().outbound().connected().choose_random()`; `pick`: the random choice -/
+def chooseRelay (peers : List RPeer) (pick : Nat) : Option Nat :=
+  let c := peers.filter fun p => p.member && p.outbound && !p.banned
+  (c[pick % c.length]?).map (·.id)
+
+def peerById (peers : List RPeer) (id : Nat) : Option RPeer := peers.find? (·.id == id)
+
+/-- `DandelionEpoch::relay_peer(peers)`: the current relay is kept while it `is_connected()` - in
+the `Peers` map or not, its connection alive or not -, otherwise a new one is chosen.  Returns the
+relay after the call (`cur`: the relay before, by id; `peers`: every peer object). -/
+def relayPeer (cur : Option Nat) (peers : List RPeer) (pick : Nat) : Option Nat :=
+  match cur.bind (peerById peers) with
+  | some p => if !p.banned then some p.id else chooseRelay peers pick
+  | none => chooseRelay peers pick
+
+/-- `stem_tx_accepted(entry).is_ok()` and the relay afterwards: in a stem epoch (or for our own
+transactions with `always_stem_our_txs`) the relay is looked up and `send_stem_transaction` decides;
+in a fluff epoch nothing is asked -/
+def stemTxAcceptedR (isStem alwaysStemOurs : Bool) (src : Src) (cur : Option Nat) (peers : List RPeer)
+    (pick : Nat) : Bool × Option Nat :=
+  if isStem || (src.isPushed && alwaysStemOurs) then
+    let r := relayPeer cur peers pick
+    match r.bind (peerById peers) with
+    | some p => (p.alive, r)
+    | none => (false, r)
+  else (true, cur)
+
+/-- the `Epoch.relay` input of `Model/PoolNode.lean` computed from the peers -/
+def relayOutcome (cur : Option Nat) (peers : List RPeer) (pick : Nat) : Option Bool :=
+  ((relayPeer cur peers pick).bind (peerById peers)).map (·.alive)
+
 /-! ## histories of a node with its clock -/
 
 /-- the configuration the clocked paths read: `DandelionConfig` and `PoolConfig::reorg_cache_period`
